@@ -1,7 +1,7 @@
 import sys; sys.path.insert(0, '/verif/harness')
 import mkprops as m
 P = 'Proofs/Json.v'
-IMP = 'From BE Require Import Gen.JsonFns Proofs.JsonGen Proofs.JsonGenCor.\nFrom BE Require Import Model.Json Model.Schema Gen.JsonFraming Gen.Schemas Proofs.Json.\nFrom Coq Require Import ZArith.\nLocal Open Scope string_scope.\nLocal Open Scope list_scope.'
+IMP = 'From BE Require Import Gen.JsonFns Proofs.JsonGen Proofs.JsonGenCor.\nFrom BE Require Import Model.Json Model.Schema Model.JsonFramingHand Model.SchemasHand Proofs.Json Proofs.JsonPins.\nFrom BE Require Gen.JsonFraming Gen.Schemas.\nFrom Coq Require Import ZArith.\nLocal Open Scope string_scope.\nLocal Open Scope list_scope.'
 m.write('C12', 'JSON game logs are schema-valid and read back exactly as written.', IMP, '', [
  (P, 'parse_tokens', 'C12_parser_reads_what_is_printed', 'token level: every JSON value printed is parsed back, whatever follows'),
  (P, 'parse_doc_tokens', 'C12_parse_doc', None),
@@ -19,6 +19,9 @@ m.write('C12', 'JSON game logs are schema-valid and read back exactly as written
  ('Proofs/JsonGenCor.v', 'g_logs_roundtrip', 'C12_roundtrip_generated', 'the property, for the regenerated writer and reader'),
  ('Proofs/JsonGenCor.v', 'g_log_as_settings', 'C12_as_settings_generated', None),
  ('Proofs/JsonGenCor.v', 'g_logs_schema_valid', 'C12_schema_generated', None),
+ ('Proofs/JsonPins.v', 'framing_pinned', 'C12_source_framing_is_the_modelled_one', 'the literals JsonWriter.open / close / _write_content write, re-read from writer.py on this run, are the ones the proofs use'),
+ ('Proofs/JsonPins.v', 'tags_pinned', 'C12_source_tags_are_the_modelled_ones', None),
+ ('Proofs/JsonPins.v', 'log_schema_pinned', 'C12_source_schema_is_the_modelled_one', 'log_format.schema.json, re-read on this run, is the schema term the proofs use'),
  (P, 'ex_written_and_read', 'C12_example_written_and_read', 'non-vacuity'),
  (P, 'ex_logs_back', 'C12_example_logs_back', None),
  (P, 'ex_validates', 'C12_example_validates', None),
